@@ -141,7 +141,7 @@ func (r runCfg) String() string {
 	return fmt.Sprintf("%s/mon=%v/procs=%d/%s/%s", r.Mode, r.Monitor, r.Procs, r.Profile, r.Entry)
 }
 
-var profileNames = []string{"none", "gosched", "sleep", "delay-fwd", "delay-provider", "delay-client", "delay-dup", "delay-print"}
+var profileNames = []string{"none", "gosched", "sleep", "delay-fwd", "delay-provider", "delay-client", "delay-dup", "delay-print", "delay-call"}
 var procChoices = []int{1, 2, 4, 16}
 
 // cfgFor derives the k-th configuration of program i deterministically from the seed.
@@ -396,6 +396,12 @@ func checkC02() int {
 		}
 		run := o.Res.Run
 		fps[run.Fingerprint] = true
+		if heartbeatEarly(run) {
+			w := witnessOf(r)
+			w["max_step_gap_us"] = run.MaxStepGapUs
+			c.Violation("quiescence is declared (run cancelled) while processes are running although no 50 ms of silence occurred", w)
+			continue
+		}
 		if run.Premature {
 			premature++
 			c.Inconc("heartbeat-premature")
@@ -464,6 +470,27 @@ func checkC03() int {
 		}
 		return []string{"async", "sync", "np", "async", "sync"}
 	})
+	// forward targets: contraction-free programs full of tail calls spelt as a cut followed by
+	// a forward, with explicit self, so that np is comparable and a callee is often the target
+	// of a forward already parked on its control channel when it takes its first step
+	fwdCases := genCases(c, c.pick(120, 700), 33, func(i int) *gen.Opt {
+		return &gen.Opt{MaxSplit: 0, Pol: 2, Alias: 30, ExplicitSelf: 60, ExplicitProv: 15, Exec: 10, Print: 30, TopMax: 2, Fuel: 3, Tail: 45, CutFwd: 70, MainMode: []vast.Mode{vast.Lin, vast.Rep, vast.Aff, vast.Lin}[i%4], Mixed: i%5 == 0}
+	})
+	outs = append(outs, runMatrix(c, pool, fwdCases, nCfg, func(pc *progCase) []string {
+		if pc.Contr {
+			return []string{"async", "sync"}
+		}
+		return []string{"np", "async", "np", "sync", "np"}
+	})...)
+	// long-running programs (busy for much longer than the heartbeat interval), through the
+	// real entry point and through the exact-quiescence entry
+	for _, k := range []int{9, 10, c.pick(10, 11)} {
+		pc := &progCase{ID: fmt.Sprintf("long%d", k), Text: longProgram(k), Source: "long"}
+		for _, cfg := range []runCfg{{Mode: "async", Procs: 16, Profile: "none", Entry: "init"}, {Mode: "np", Procs: 4, Profile: "none", Entry: "init"}, {Mode: "async", Procs: 4, Profile: "none"}, {Mode: "sync", Procs: 16, Profile: "gosched"}, {Mode: "np", Procs: 2, Profile: "none"}} {
+			o := pool.Run([]sup.Job{jobFor(pc, cfg, uint64(k), 50000000)}, nil)[0]
+			outs = append(outs, runOut{pc: pc, cfg: cfg, o: o})
+		}
+	}
 	type obs struct {
 		ms    string
 		clean bool
@@ -486,6 +513,17 @@ func checkC03() int {
 		run := o.Res.Run
 		if run.Watchdog || run.Overrun {
 			c.Inconc("run-watchdog")
+			continue
+		}
+		if heartbeatEarly(run) {
+			w := witnessOf(r)
+			w["max_step_gap_us"] = run.MaxStepGapUs
+			w["elapsed_us"] = run.ElapsedUs
+			c.Violation(fmt.Sprintf("mode=%s a run is cancelled while processes are running although no 50 ms of silence occurred (completion depends on how long the program runs)", r.cfg.Mode), w)
+			continue
+		}
+		if run.Premature {
+			c.Inconc("heartbeat-premature")
 			continue
 		}
 		ms := sem.MS(run.Stdout)
@@ -671,4 +709,43 @@ func parseMS(ms string) map[string]int {
 		cnt[part[:i]] = n
 	}
 	return cnt
+}
+
+// longProgram: 2^k by repeated doubling, one print per unit: continuously busy for well over
+// the 50 ms heartbeat interval (k >= 9), contraction-free, deterministic.
+func longProgram(k int) string {
+	var b strings.Builder
+	b.WriteString(`type nat = +{zero : 1, succ : nat}
+let double(x : nat) : nat =
+    case x (
+          zero<x'> => self.zero<x'>
+        | succ<x'> => h <- new double(x');
+                      d : nat <- new self.succ<h>;
+                      self.succ<d>
+    )
+let consume(x : nat) : 1 =
+    case x (
+          zero<u> => print zero; wait u; close self
+        | succ<v> => print succ; consume(v)
+    )
+prc[d0] : nat =
+    t : 1 <- new close self;
+    z : nat <- new self.zero<t>;
+    self.succ<z>
+prc[main] : 1 =
+`)
+	prev := "d0"
+	for i := 1; i <= k; i++ {
+		fmt.Fprintf(&b, "    d%d <- new double(%s);\n", i, prev)
+		prev = fmt.Sprintf("d%d", i)
+	}
+	fmt.Fprintf(&b, "    u <- new consume(%s);\n    wait u;\n    print done;\n    close self\n", prev)
+	return b.String()
+}
+
+// heartbeatEarly: a run through the real entry point ended with processes still running
+// although no 50 ms of silence had occurred between transitions - the heartbeat receiver,
+// not starvation, cut it short.
+func heartbeatEarly(run *sup.RunResult) bool {
+	return run.Premature && run.MaxStepGapUs < 40000
 }
